@@ -29,24 +29,25 @@ type Config struct {
 	StoreHook bool // storage calls are crash points
 	Asym      bool // one-directional partitions are in the alphabet
 	Puppets   bool // only n0 is a real node; the others are played by the harness
+	ArmDepth  int  // crash arming reaches the k-th next storage call, k < ArmDepth (default 2)
 	Rot       int  // timed mode: rotation of the staggered election timeouts
 	Cold      bool // spare nodes are constructed but neither bootstrapped nor started
 }
 
 type Budget struct {
-	Timeouts, Elapses, Ticks, Beats  int
-	FreeElapses                      int // standalone clock jumps (lease suites)
-	Writes, Reads, LeaseReads        int
-	Drops, DropReplies, Dups         int
-	Crashes, Arms, Restarts          int
-	Members                          int
-	Reorders                         int // <0: any delivery order is free
-	Splits                           int // deliveries whose reply is withheld (<0: every delivery)
-	ClientTimeouts                   int
-	Cuts                             int // partition changes (isolate / mute / deafen / heal)
-	Steps                            int // total events (0 = unbounded, -1 = exhausted)
-	MsgSteps                         int // timed mode: >0 enables individual message events
-	Lags                             int // timed mode: intervals that pass with messages still in flight
+	Timeouts, Elapses, Ticks, Beats int
+	FreeElapses                     int // standalone clock jumps (lease suites)
+	Writes, Reads, LeaseReads       int
+	Drops, DropReplies, Dups        int
+	Crashes, Arms, Restarts         int
+	Members                         int
+	Reorders                        int // <0: any delivery order is free
+	Splits                          int // deliveries whose reply is withheld (<0: every delivery)
+	ClientTimeouts                  int
+	Cuts                            int // partition changes (isolate / mute / deafen / heal)
+	Steps                           int // total events (0 = unbounded, -1 = exhausted)
+	MsgSteps                        int // timed mode: >0 enables individual message events
+	Lags                            int // timed mode: intervals that pass with messages still in flight
 	// Deviations bounds the number of times the environment departs from the
 	// default (first enabled, simplest-first) event; <0 = unbounded.
 	Deviations int
@@ -102,21 +103,21 @@ type Node struct {
 
 // ClientOp is one client request and what became of it.
 type ClientOp struct {
-	ID       int
-	Kind     string // write | read | lease | add | remove
-	Node     int
-	Data     string
-	Target   int  // member ops: subject node
-	TargetID string
-	Voter    bool // add
-	OpFut    raft.Future[raft.OperationResponse]
-	CfFut    raft.Future[raft.Configuration]
-	Resolved bool
-	Err      error
-	Resp     raft.OperationResponse
-	Conf     raft.Configuration
-	Gone     bool // client gave up (timeout) before resolution
-	SendClock int // network send clock when the operation was invoked
+	ID        int
+	Kind      string // write | read | lease | add | remove
+	Node      int
+	Data      string
+	Target    int // member ops: subject node
+	TargetID  string
+	Voter     bool // add
+	OpFut     raft.Future[raft.OperationResponse]
+	CfFut     raft.Future[raft.Configuration]
+	Resolved  bool
+	Err       error
+	Resp      raft.OperationResponse
+	Conf      raft.Configuration
+	Gone      bool // client gave up (timeout) before resolution
+	SendClock int  // network send clock when the operation was invoked
 }
 
 type ArmSpec struct {
@@ -125,26 +126,28 @@ type ArmSpec struct {
 }
 
 type Cluster struct {
-	Cfg    Config
-	Nodes  []*Node
-	Net    *Network
-	B      Budget
-	Ops    []*ClientOp
-	Hist   []string // order of invocations and resolutions: "i3", "r3+", "r3-"
-	Fsm    []FsmCall
-	Armed  map[int]*ArmSpec
+	Cfg   Config
+	Nodes []*Node
+	Net   *Network
+	B     Budget
+	Ops   []*ClientOp
+	Hist  []string // order of invocations and resolutions: "i3", "r3+", "r3-"
+	Fsm   []FsmCall
+	Armed map[int]*ArmSpec
 	// Blocked[a][b]: messages from a to b (requests and replies) are held.
 	Blocked [][]bool
-	crashQ []int
-	Tick   int64
+	crashQ  []int
+	Tick    int64
 	// StorageSeen is called for every storage hook (monitors).
 	StorageSeen func(node int, op string, phase int)
 	Problems    []string // harness-level anomalies (panics in tasks ...)
-	Stagger     bool     // election timeouts are staggered per node (timed runs)
-	Rot         int
-	API         []*APIResult
-	views       []*raft.VerifView
-	nextWrite   int
+	// LogObservers see every append/truncate/discard of every node's log.
+	LogObservers []func(node int, op string, index uint64, entries []*raft.LogEntry)
+	Stagger      bool // election timeouts are staggered per node (timed runs)
+	Rot          int
+	API          []*APIResult
+	views        []*raft.VerifView
+	nextWrite    int
 }
 
 func nodeID(i int) string   { return fmt.Sprintf("n%d", i) }
@@ -252,6 +255,11 @@ func (c *Cluster) construct(n *Node) {
 		hook = c.hook
 	}
 	n.MLog = NewMemLog(n.Idx, n.Log, hook)
+	n.MLog.Observe = func(node int, op string, index uint64, entries []*raft.LogEntry) {
+		for _, f := range c.LogObservers {
+			f(node, op, index, entries)
+		}
+	}
 	r, err := raft.NewRaft(n.ID, n.Addr, n.Fsm, "",
 		raft.WithLog(n.MLog),
 		raft.WithStateStorage(&MemState{Disk: n.St, Node: n.Idx, Hook: hook}),
@@ -996,7 +1004,11 @@ func (c *Cluster) enabledAll() []Event {
 	if c.Cfg.StoreHook && c.B.Arms > 0 {
 		for i, n := range c.Nodes {
 			if n.Alive && c.Armed[i] == nil {
-				for a := 0; a < 4; a++ {
+				depth := c.Cfg.ArmDepth
+				if depth == 0 {
+					depth = 2
+				}
+				for a := 0; a < 2*depth; a++ {
 					ev = append(ev, Event{K: "arm", N: i, A: a})
 				}
 			}
